@@ -1311,6 +1311,42 @@ def run(ctx):
     ctx.notes["bytes_to_object"] = {"inputs": len(bs), "typed_by_oracle": typed}
     ctx.traces_validated += len(bs)
 
+    # ---- parsing is a function of the bytes: an object a caller got from the parser and then changed (a template turned into a variant)
+    #      must not change what the same bytes parse to afterwards (state carried between calls, e.g. a cache of parsed objects)
+    n_alias = 0
+    for b in [x for x in bs if len(x) >= 2][:: max(1, len(bs) // ctx.pick(600, 6000))]:
+        before = impl.dyn(b)
+        if before["dyn"].startswith(("exc:", "raw ")):
+            continue
+        try:
+            obj = S.UDSRequest.parse_dynamic(b)
+        except Exception:  # noqa: BLE001
+            continue
+        for attr, val in list(vars(obj).items()):
+            try:
+                if isinstance(val, bool):
+                    setattr(obj, attr, not val)
+                elif isinstance(val, int):
+                    setattr(obj, attr, (val + 1) % 2)
+                elif isinstance(val, (bytes, bytearray)):
+                    setattr(obj, attr, bytes(val) + b"\x5a")
+                elif isinstance(val, list):
+                    val.append(val[0] if val else 0)
+            except Exception:  # noqa: BLE001
+                pass
+        after = impl.dyn(b)
+        n_alias += 1
+        ctx.ev()
+        ctx.kind("bytes:parse-after-mutating-an-earlier-parse")
+        if after != before:
+            ALL.add("parse-dynamic:depends-on-earlier-calls", f"parse_dynamic({hx(b)}) = {after['dyn'][:80]} after an object parsed from the same bytes "
+                    f"was changed by its owner; before: {before['dyn'][:80]}", {"direction": "bytes->object", "pdu": hx(b), "after_mutation_of_earlier_parse": True,
+                                                                              "_size": 8 * len(b)},
+                    impl={"request": after["dyn"], "pdu": hx(after["dyn_pdu"] or b"")}, model={"request": before["dyn"], "pdu": hx(before["dyn_pdu"] or b"")},
+                    site="UDSRequest.parse_dynamic")
+            break
+    ctx.notes["parse_after_mutation_probes"] = n_alias
+
     # ---- client glue: every call is compared with the Lean `denote` of the call
     from gallia.services.uds.core.client import UDSClient
 
